@@ -196,12 +196,12 @@ def check_project(root, dirs, files, sources, out, tag):
                     need = {(a, b) for a, b in need if a != b and not (b.startswith(a + ".") and b.count(".") == a.count(".") + 1)}
                     lost = sorted(need - set(rl[2]))
                     if lost and not scan.has_ambiguous_imports(dirs, files, mp):
-                        out["violations"].append((dict(dirs=[list(d) for d in dirs], files={scan.dotted(f): (scan.render_file(v["body"]) if v["py"] else None) for f, v in files.items()},
+                        out["violations"].append((dict(dirs=[list(d) for d in dirs], files={scan.dotted(f): (scan.render_v(v) if v["py"] else None) for f, v in files.items()},
                                                        module_path=list(mp), level_limit=k, missing=lost),
                                                   f"with level_limit={k} (module_path {scan.dotted(mp)}) the import {lost[0][0]} -> {lost[0][1]} promised by an import statement is missing", {"kind": "missing_edge_limited"}))
             r = scan.real_scan(base, root, mp)
             out["n"] += 1
-            case = dict(dirs=[list(d) for d in dirs], files={scan.dotted(f): (sources.get(f) if sources and f in sources else scan.render_file(v["body"])) if v["py"] else None for f, v in files.items()},
+            case = dict(dirs=[list(d) for d in dirs], files={scan.dotted(f): (sources.get(f) if sources and f in sources else scan.render_v(v)) if v["py"] else None for f, v in files.items()},
                         module_path=list(mp), position=tag)
             if r[0] != "OK":
                 out["violations"].append((dict(case, error=r[1]), f"scan failed: {r[1]}", {"kind": "scan_error"}))
